@@ -654,8 +654,7 @@ def c_inference_pareto_front(
     c_inf.preprocess_belief_base(0)
     csp = c_inf.base_csp
 
-    n = len(belief_base.conditionals)
-    minimize_vars = [f"eta_{i}" for i in range(1, n + 1)]
+    minimize_vars = [f"eta_{i}" for i in sorted(belief_base.conditionals.keys())]
 
     solutions = solve_pareto_front(csp, minimize_vars, max_solutions=max_solutions)
 
